@@ -8,8 +8,10 @@ over the regenerated table false.
 What is translated (by `ast`, plus introspection of the live `pyipmi.Ipmi` class only for
 the list of methods that exist and their signatures):
 
-* COMMANDS: a tuple of `Command('<name>', <handler>)`; handler = `lambda i, a: <expr>` or
-  the name of a module-level `def f(ipmi, args)`.  For a handler the translator collects
+* COMMANDS: a tuple of `Command('<name>', <handler>)`; handler = `lambda i, a: <expr>`, the name of
+  a module-level `def f(ipmi, args)`, or a factory call `<f>('<literal>', ...)` of a module-level def whose
+  body is `def h(ipmi, args): ...; return h` or `return lambda i, a: ...` (the factory's parameters are
+  replaced by the literal arguments).  `getattr(<x>, '<literal>')` is read as `<x>.<literal>` everywhere.  For a handler the translator collects
   every use `<ipmi>.<method>` of its first parameter: calls (with the number of positional
   arguments and the keyword names) and bare references.  Passing the parameter on to
   another module-level function (`sdr_show(ipmi, s)`) is followed transitively; any other
@@ -19,7 +21,10 @@ the list of methods that exist and their signatures):
 * main(): the getopt option string / long options; the if/elif chain over the options
   (flag -> what is done with the value: store as string / int(a, 0) / int(a) / the
   one-hop routing list / set True / usage+exit / version+exit) with each local variable
-  named by its SINK (where main hands it to the library), so renaming a local is harmless;
+  named by its SINK (where main hands it to the library - followed into module-level helpers such
+  as `_setup_logging(verbose)`), so renaming a local or extracting a helper is harmless; a statement
+  `helper(args...)` calling a module-level def is inlined (parameters substituted, `if <literal> is
+  [not] None` decided) before the except bodies are read;
   the exception handlers around the command (exception class, text printed, exit status);
   the shape of that try: `<conn>.open()` inside its body before `cmd(<conn>, args)` (or directly
   before the try), `<conn>.close()` as its only finally statement, nothing after it.
@@ -31,6 +36,7 @@ the list of methods that exist and their signatures):
 """
 import argparse
 import ast
+import re
 import inspect
 import os
 import sys
@@ -42,6 +48,155 @@ def q(s):
 
 def coq_list(items, sep='; '):
     return '[' + sep.join(items) + ']'
+
+
+import copy
+
+
+class _Subst(ast.NodeTransformer):
+    """replace Load occurrences of the given names by expressions"""
+
+    def __init__(self, env):
+        self.env = env
+
+    def visit_Name(self, node):
+        if isinstance(node.ctx, ast.Load) and node.id in self.env:
+            return copy.deepcopy(self.env[node.id])
+        return node
+
+
+class _Getattr(ast.NodeTransformer):
+    """getattr(<x>, '<literal>')  ->  <x>.<literal>"""
+
+    def visit_Call(self, node):
+        self.generic_visit(node)
+        if isinstance(node.func, ast.Name) and node.func.id == 'getattr' and len(node.args) == 2 and not node.keywords \
+                and isinstance(node.args[1], ast.Constant) and isinstance(node.args[1].value, str) \
+                and node.args[1].value.isidentifier():
+            return ast.copy_location(ast.Attribute(value=node.args[0], attr=node.args[1].value, ctx=ast.Load()), node)
+        return node
+
+
+def strip_doc(body):
+    return [st for st in body if not (isinstance(st, ast.Expr) and isinstance(st.value, ast.Constant))]
+
+
+def bind_call(f, call):
+    """parameter name -> argument expression for a call of the module-level def f (positional / keyword
+    arguments and constant defaults only); None when outside the fragment"""
+    a = f.args
+    if a.vararg or a.kwarg or a.kwonlyargs or a.posonlyargs or any(isinstance(x, ast.Starred) for x in call.args) \
+            or any(k.arg is None for k in call.keywords) or len(call.args) > len(a.args):
+        return None
+    env = {}
+    for prm, arg in zip(a.args, call.args):
+        env[prm.arg] = arg
+    for k in call.keywords:
+        if k.arg in env or k.arg not in [x.arg for x in a.args]:
+            return None
+        env[k.arg] = k.value
+    defaults = dict(zip([x.arg for x in a.args][len(a.args) - len(a.defaults):], a.defaults))
+    for prm in a.args:
+        if prm.arg not in env:
+            if prm.arg not in defaults or not isinstance(defaults[prm.arg], ast.Constant):
+                return None
+            env[prm.arg] = defaults[prm.arg]
+    return env
+
+
+def resolve_handler(node, funcs):
+    """the function a COMMANDS entry names, as (kind, name, params, body-nodes) or an error string:
+       lambda i, a: <expr>  |  <module-level def>  |  <factory>('<literal>', ...) where the module-level def
+       <factory> is `def f(p...): def h(ipmi, args): ...; return h` or `def f(p...): return lambda i, a: ...`
+       (the factory's parameters are replaced by the literal arguments, getattr(x, '<name>') becomes x.<name>)"""
+    if isinstance(node, ast.Lambda):
+        if len(node.args.args) != 2:
+            return 'lambda does not take (ipmi, args)'
+        return ('HLambda', None, [x.arg for x in node.args.args], [node.body])
+    if isinstance(node, ast.Name):
+        if node.id not in funcs:
+            return 'handler %s is not a module-level def' % node.id
+        f = funcs[node.id]
+        if len(f.args.args) != 2 or f.args.vararg or f.args.kwarg:
+            return '%s does not take (ipmi, args)' % node.id
+        return ('HDef', node.id, [x.arg for x in f.args.args], f.body)
+    if isinstance(node, ast.Call) and isinstance(node.func, ast.Name) and node.func.id in funcs \
+            and all(isinstance(x, ast.Constant) for x in node.args) \
+            and all(k.arg is not None and isinstance(k.value, ast.Constant) for k in node.keywords):
+        f = funcs[node.func.id]
+        env = bind_call(f, node)
+        body = strip_doc(f.body)
+        if env is None:
+            return 'factory %s called outside the fragment' % node.func.id
+        inner = None
+        if len(body) == 2 and isinstance(body[0], ast.FunctionDef) and isinstance(body[1], ast.Return) \
+                and isinstance(body[1].value, ast.Name) and body[1].value.id == body[0].name:
+            inner = body[0]
+        elif len(body) == 1 and isinstance(body[0], ast.Return) and isinstance(body[0].value, ast.Lambda):
+            inner = body[0].value
+        if inner is None or len(inner.args.args) != 2 or inner.args.vararg or inner.args.kwarg \
+                or any(x.arg in env for x in inner.args.args):
+            return 'factory %s is not `def h(ipmi, args): ...; return h` / `return lambda i, a: ...`' % node.func.id
+        inner = _Getattr().visit(_Subst(env).visit(copy.deepcopy(inner)))
+        ast.fix_missing_locations(inner)
+        label = '%s(%s)' % (node.func.id, ', '.join(repr(x.value) for x in node.args))
+        if isinstance(inner, ast.Lambda):
+            return ('HLambda', None, [x.arg for x in inner.args.args], [inner.body])
+        return ('HDef', label, [x.arg for x in inner.args.args], inner.body)
+    return 'handler is %s' % type(node).__name__
+
+
+def fold_test(t):
+    """True / False when the test is decided by literals (`<literal> is [not] None`), else None"""
+    if isinstance(t, ast.Compare) and len(t.ops) == 1 and isinstance(t.ops[0], (ast.Is, ast.IsNot)) \
+            and isinstance(t.comparators[0], ast.Constant) and t.comparators[0].value is None:
+        lhs = t.left
+        if isinstance(lhs, ast.Constant):
+            is_none = lhs.value is None
+        elif isinstance(lhs, (ast.BinOp, ast.JoinedStr, ast.List, ast.Tuple, ast.Dict)):
+            is_none = False
+        else:
+            return None
+        return is_none if isinstance(t.ops[0], ast.Is) else not is_none
+    return None
+
+
+def inline_stmts(stmts, funcs, depth=0):
+    """flatten statements: a call `helper(args...)` of a module-level def used as a statement is replaced by the
+    helper's body with its parameters substituted (helpers that assign to a parameter or return a value are left
+    alone); `if <literal> is [not] None:` is decided"""
+    out = []
+    for st in stmts:
+        if isinstance(st, ast.Expr) and isinstance(st.value, ast.Call) and isinstance(st.value.func, ast.Name) \
+                and st.value.func.id in funcs and depth < 4 and st.value.func.id not in ('usage', 'version', 'cmd'):
+            f = funcs[st.value.func.id]
+            env = bind_call(f, st.value)
+            body = strip_doc(f.body)
+            ok = env is not None
+            for n in ast.walk(f):
+                if isinstance(n, ast.Name) and isinstance(n.ctx, ast.Store) and env is not None and n.id in env:
+                    ok = False
+                if isinstance(n, ast.Return) and n.value is not None:
+                    ok = False
+                if isinstance(n, (ast.Global, ast.Nonlocal, ast.Yield, ast.YieldFrom)):
+                    ok = False
+            if ok:
+                sub = [_Subst(env).visit(copy.deepcopy(x)) for x in body]
+                for x in sub:
+                    ast.copy_location(x, st)
+                    ast.fix_missing_locations(x)
+                out += inline_stmts(sub, funcs, depth + 1)
+                continue
+        if isinstance(st, ast.If):
+            v = fold_test(st.test)
+            if v is True:
+                out += inline_stmts(st.body, funcs, depth)
+                continue
+            if v is False:
+                out += inline_stmts(st.orelse, funcs, depth)
+                continue
+        out.append(st)
+    return out
 
 
 class Untranslated(Exception):
@@ -104,21 +259,11 @@ def collect_uses(body_nodes, param, funcs, uses, seen):
 
 def tr_handler(node, funcs):
     uses = Uses()
-    if isinstance(node, ast.Lambda):
-        if len(node.args.args) != 2:
-            return 'HUntranslated "lambda does not take (ipmi, args)"'
-        collect_uses([node.body], node.args.args[0].arg, funcs, uses, set())
-        kind, name = 'HLambda', None
-    elif isinstance(node, ast.Name):
-        if node.id not in funcs:
-            return 'HUntranslated %s' % q('handler %s is not a module-level def' % node.id)
-        f = funcs[node.id]
-        if len(f.args.args) != 2 or f.args.vararg or f.args.kwarg:
-            return 'HUntranslated %s' % q('%s does not take (ipmi, args)' % node.id)
-        collect_uses(f.body, f.args.args[0].arg, funcs, uses, {(node.id, 0)})
-        kind, name = 'HDef', node.id
-    else:
-        return 'HUntranslated %s' % q('handler is %s' % type(node).__name__)
+    r = resolve_handler(node, funcs)
+    if isinstance(r, str):
+        return 'HUntranslated %s' % q(r)
+    kind, name, params, body = r
+    collect_uses(body, params[0], funcs, uses, {(name, 0)} if isinstance(node, ast.Name) else set())
     if uses.problems:
         return 'HUntranslated %s' % q('; '.join(sorted(set(uses.problems))))
     calls = []
@@ -133,13 +278,10 @@ def tr_callspec(node, funcs):
     """CSingle <method> [<arg>...] when the handler makes exactly ONE call `<ipmi>.<method>(...)`, outside
     any loop, has no other use of <ipmi>, and every argument is an integer constant or
     int(<args>[k]) / int(<args>[k], base) (directly or through a local assigned once); else CMulti."""
-    if isinstance(node, ast.Lambda) and len(node.args.args) == 2:
-        p0, p1, body = node.args.args[0].arg, node.args.args[1].arg, [node.body]
-    elif isinstance(node, ast.Name) and node.id in funcs and len(funcs[node.id].args.args) == 2:
-        f = funcs[node.id]
-        p0, p1, body = f.args.args[0].arg, f.args.args[1].arg, f.body
-    else:
+    r = resolve_handler(node, funcs)
+    if isinstance(r, str):
         return 'CMulti "handler outside the fragment"'
+    p0, p1, body = r[2][0], r[2][1], r[3]
     parents = {}
     for root in body:
         for n in ast.walk(root):
@@ -294,9 +436,13 @@ def find_main(tree):
     return None
 
 
-def var_roles(main):
+def var_roles(fn, funcs=None, depth=0):
+    """local variable / parameter name -> set of roles, by where its value is handed on: a library call of
+    SINKS, the `if X:` / `A if X else B` that selects the DEBUG log level, or - followed into the callee - a
+    parameter of a module-level helper that does one of these"""
+    funcs = funcs or {}
     roles = {}
-    for n in ast.walk(main):
+    for n in ast.walk(fn):
         if isinstance(n, ast.Call):
             d = dotted(n.func)
             if d is None:
@@ -304,6 +450,19 @@ def var_roles(main):
             for suffix, pos, role in SINKS:
                 if (d == suffix or d.endswith('.' + suffix)) and pos < len(n.args) and isinstance(n.args[pos], ast.Name):
                     roles.setdefault(n.args[pos].id, set()).add(role)
+            if d.endswith('setLevel'):
+                for a in n.args:
+                    if isinstance(a, ast.IfExp) and isinstance(a.test, ast.Name):
+                        roles.setdefault(a.test.id, set()).add('verbose')
+            if isinstance(n.func, ast.Name) and n.func.id in funcs and depth < 3 and funcs[n.func.id] is not fn:
+                callee = funcs[n.func.id]
+                inner = var_roles(callee, funcs, depth + 1)
+                env = bind_call(callee, n)
+                for prm, arg in (env or {}).items():
+                    if isinstance(arg, ast.Name) and prm in inner:
+                        # only sinks that identify a role on their own
+                        keep = set(r for r in inner[prm] if r != 'verbose' or callee.name not in ('usage',))
+                        roles.setdefault(arg.id, set()).update(keep)
         # `if verbose:` guarding handler.setLevel(logging.DEBUG)
         if isinstance(n, ast.If) and isinstance(n.test, ast.Name):
             for c in ast.walk(n):
@@ -367,7 +526,7 @@ def exit_code_of(call):
     return None
 
 
-def tr_options(main):
+def tr_options(main, funcs=None):
     getopt_call = None
     for n in ast.walk(main):
         if isinstance(n, ast.Call) and dotted(n.func) in ('getopt.getopt', 'getopt.gnu_getopt', 'getopt'):
@@ -398,7 +557,7 @@ def tr_options(main):
     if loop is None or len(loop.body) != 1 or not isinstance(loop.body[0], ast.If):
         return short, longs, ['mkOpt "" (AUntranslated "no `for o, a in opts: if ...` loop in main")'], defaults
     optvar, optarg = loop.target.elts[0].id, loop.target.elts[1].id
-    roles = var_roles(main)
+    roles = var_roles(main, funcs)
     globals_declared = set()
     for n in ast.walk(main):
         if isinstance(n, ast.Global):
@@ -460,7 +619,7 @@ def tr_options(main):
     return short, longs, entries, defaults
 
 
-def tr_exits(main):
+def tr_exits(main, funcs=None):
     """the try around cmd(ipmi, args): (exception, printed text, uses e.cc, exit status)"""
     target = None
     for n in ast.walk(main):
@@ -479,7 +638,7 @@ def tr_exits(main):
             continue
         name = name.split('.')[-1]
         text, uses_cc, code, bad = None, False, None, None
-        for s in h.body:
+        for s in inline_stmts(h.body, funcs or {}):
             if isinstance(s, ast.Expr) and isinstance(s.value, ast.Call):
                 c = s.value
                 if isinstance(c.func, ast.Name) and c.func.id == 'print' and len(c.args) == 1 and not c.keywords:
@@ -561,7 +720,7 @@ def tr_shape(main):
 
 
 # ----------------------------------------------------------------------------- chassis power
-def tr_power(cmd_names, repo):
+def tr_power(cmd_names, repo, funcs=None):
     src = open(os.path.join(repo, 'pyipmi', 'chassis.py')).read()
     tree = ast.parse(src)
     msrc = ast.parse(open(os.path.join(repo, 'pyipmi', 'msgs', 'chassis.py')).read())
@@ -590,12 +749,11 @@ def tr_power(cmd_names, repo):
             continue
         sub = name[len('chassis power '):]
         try:
-            if not (isinstance(handler, ast.Lambda) and isinstance(handler.body, ast.Call) and not handler.body.args
-                    and not handler.body.keywords and isinstance(handler.body.func, ast.Attribute)
-                    and isinstance(handler.body.func.value, ast.Name)
-                    and handler.body.func.value.id == handler.args.args[0].arg):
-                raise Untranslated('handler is not `lambda i, a: i.<method>()`')
-            m = handler.body.func.attr
+            cs = tr_callspec(handler, funcs or {})
+            mm = re.match(r'CSingle "(\w+)" \[\]$', cs)
+            if not mm:
+                raise Untranslated('handler is not one call `<ipmi>.<method>()` without arguments')
+            m = mm.group(1)
             if m not in methods:
                 raise Untranslated('method %s is not defined in class Chassis' % m)
             body = strip_doc(methods[m].body)
@@ -674,7 +832,8 @@ def generate(repo):
     import pyipmi  # noqa
     assert os.path.realpath(pyipmi.__file__).startswith(os.path.realpath(repo)), pyipmi.__file__
     path = os.path.join(repo, 'pyipmi', 'ipmitool.py')
-    tree = ast.parse(open(path).read())
+    tree = _Getattr().visit(ast.parse(open(path).read()))
+    ast.fix_missing_locations(tree)
     funcs = {st.name: st for st in tree.body if isinstance(st, ast.FunctionDef)}
     cmds, names = tr_commands(tree, funcs)
     api = tr_api(pyipmi.Ipmi)
@@ -684,10 +843,10 @@ def generate(repo):
         exits = ['mkExit "" None false None (Some "no main()")']
         shape = 'RunUntranslated "no main()"'
     else:
-        short, longs, opts, defaults = tr_options(main)
-        exits = tr_exits(main)
+        short, longs, opts, defaults = tr_options(main, funcs)
+        exits = tr_exits(main, funcs)
         shape = tr_shape(main)
-    power, cc = tr_power(names, repo)
+    power, cc = tr_power(names, repo, funcs)
     specs = ['(%s, %s)' % (q(n), tr_callspec(h, funcs)) for n, h in names]
     import pyipmi.interfaces as I
     ifaces = [q(c.NAME) for c in I.INTERFACES]
